@@ -557,8 +557,13 @@ _orig_choose = runner.choose_overload
 def _choose_overload(*a, **k):
     """run-time hook: remember that resolution finished, so that an exception out of the chosen
     delegate (argument conversion, the payload call itself) is not taken for a resolution error"""
-    d = _orig_choose(*a, **k)
-    PHASE['chosen'] = True
+    PHASE['depth'] = PHASE.get('depth', 0) + 1
+    try:
+        d = _orig_choose(*a, **k)
+    finally:
+        PHASE['depth'] -= 1
+    if PHASE['depth'] == 0:          # nested calls (argument evaluation) do not count
+        PHASE['chosen'] = True
     return d
 
 
@@ -569,6 +574,7 @@ def run_real(fam, call, name='f'):
     del LOG[:]
     del REC[:]
     PHASE['chosen'] = False
+    PHASE['depth'] = 0
     try:
         fam.ctx(name, ENGINE, call.recv)(*call.args, **dict(call.kw))
     except Exception as e:
